@@ -327,7 +327,7 @@ func pickKills(o *hx.Opts, root string, rec *ptkill.Result, r *hx.Rand, ckptWind
 		ms = append(ms, k)
 	}
 	sort.Ints(ms)
-	capMust, nOther := 14, 5
+	capMust, nOther := 10, 4
 	for len(ms) > capMust {
 		i := r.Intn(len(ms))
 		ms = append(ms[:i], ms[i+1:]...)
@@ -342,7 +342,7 @@ func pickKills(o *hx.Opts, root string, rec *ptkill.Result, r *hx.Rand, ckptWind
 		ms = append(ms, other[j])
 		other = append(other[:j], other[j+1:]...)
 	}
-	// always included (seeded cap 12): checkpoint staging opens, the call after a burst of deletes, every call
+	// always included (seeded cap 10): checkpoint staging opens, the call after a burst of deletes, every call
 	// between the creation of a restore output's staging file and its rename
 	var always []int
 	for k := range ckptWindow {
@@ -351,7 +351,7 @@ func pickKills(o *hx.Opts, root string, rec *ptkill.Result, r *hx.Rand, ckptWind
 		}
 	}
 	sort.Ints(always)
-	for len(always) > 12 {
+	for len(always) > 10 {
 		i := r.Intn(len(always))
 		always = append(always[:i], always[i+1:]...)
 	}
@@ -542,7 +542,7 @@ func main() {
 	}
 	o := hx.ParseFlags("C03")
 	res := hx.NewResult(o, "c03: kill engine (ptrace supervisor, SIGKILL before the k-th mutating call) + restart oracle; recorded traces judged by Lean killOK")
-	res.Rule = "scenarios {basic, compact(+snapshot, retention), restore, follow, behind, reopen, restorev3, pinned (reader blocks WAL restart), ckptbusy (commits during litestream's checkpoints), l0ret (L1 compaction + L0 retention with short L0Retention while a local L0 file still waits for upload), chunked (bounded sync chunks under a small MaxSyncWALBytes)}; one case = (scenario, seed, rounds, k): the child is killed immediately before its k-th file-system-mutating call under the scenario root (openat O_CREAT/O_TRUNC, write*, ftruncate, rename*, unlink*, mkdir*, copy_file_range...), then restarted; quick: every rename/unlink on litestream-owned names with its neighbours (seeded cap 14 per scenario, plus (seeded cap 12) every open of a staging file inside litestream's own checkpoint the first call after every burst of LTX deletes, and the calls between the creation of a restore output's staging file and its rename — there the restart re-runs the same restore to the same output path and requires success, a sound output and no staging file) + 5 seeded others per scenario; thorough: every k. Between the kill and the restart the application keeps working in its own process (seeded: commits, wal_checkpoint PASSIVE/FULL/RESTART/TRUNCATE, commits, connection closed or left open), and the restart's first sync runs with or without a fresh commit; in a seeded share of the cases the restarted process first runs 0-2 idle syncs and DB.Snapshot BEFORE any new application write, restores and compares with the source, then continues with or without a write. non-trivial = the kill point was reached"
+	res.Rule = "scenarios {basic, compact(+snapshot, retention), restore, follow, behind, reopen, restorev3, pinned (reader blocks WAL restart), ckptbusy (commits during litestream's checkpoints), l0ret (L1 compaction + L0 retention with short L0Retention while a local L0 file still waits for upload), chunked (bounded sync chunks under a small MaxSyncWALBytes)}; one case = (scenario, seed, rounds, k): the child is killed immediately before its k-th file-system-mutating call under the scenario root (openat O_CREAT/O_TRUNC, write*, ftruncate, rename*, unlink*, mkdir*, copy_file_range...), then restarted; quick: every rename/unlink on litestream-owned names with its neighbours (seeded cap 10 per scenario, plus (seeded cap 10) every open of a staging file inside litestream's own checkpoint the first call after every burst of LTX deletes, and the calls between the creation of a restore output's staging file and its rename — there the restart re-runs the same restore to the same output path and requires success, a sound output and no staging file) + 4 seeded others per scenario; thorough: every k. Between the kill and the restart the application keeps working in its own process (seeded: commits, wal_checkpoint PASSIVE/FULL/RESTART/TRUNCATE, commits, connection closed or left open), and the restart's first sync runs with or without a fresh commit; in a seeded share of the cases the restarted process first runs 0-2 idle syncs and DB.Snapshot BEFORE any new application write, restores and compares with the source, then continues with or without a write. non-trivial = the kill point was reached"
 	g := &engine{o: o, res: res}
 	if o.Replay != "" {
 		os.Exit(g.replay())
